@@ -66,6 +66,19 @@ class TableOracle:
                     return
         if hasattr(self, 'routed'):
             del self.routed[:]
+        # a kernel expiry notice is handed to the IKE_SA that owns the expiring SPI (whatever that IKE_SA is doing)
+        if action[0] == 'expire' and getattr(pair, 'last_expire', None) is not None and hasattr(self, 'expired'):
+            epname, spi, owner = pair.last_expire
+            self.ctx.count('routing:expire-judged')
+            got = [sa for sa, s_ in self.expired if s_ == spi]
+            if not any(sa is owner for sa in got):
+                self.fail(pair, 'routing:expire-not-handed-to-owner',
+                          f'kernel EXPIRE for SPI {spi.hex()} at {epname}: the owning IKE_SA {owner.my_spi.hex()} (state '
+                          f'{int(owner.state)}) did not get it; handed to {[sa.my_spi.hex() for sa in got] or "nobody"}')
+                del self.expired[:]
+                return
+        if hasattr(self, 'expired'):
+            del self.expired[:]
         for ep in (pair.A, pair.B):
             t = ep.controller.ike_sas
             # an IKE_SA created by a rekey is registered when (and only when) the rekey has completed
@@ -197,6 +210,15 @@ def run(ctx, runs, with_oracle, record):
                 patcher = mock.patch.object(_ikesa.IkeSa, 'process_message', pm)
                 patcher.start()
                 orc.routed = routed
+                inner_pe = _ikesa.IkeSa.process_expire
+                expired = []
+
+                def pe(self_, spi, hard=False, inner_pe=inner_pe, expired=expired):
+                    expired.append((self_, bytes(spi)))
+                    return inner_pe(self_, spi, hard)
+                patcher2 = mock.patch.object(_ikesa.IkeSa, 'process_expire', pe)
+                patcher2.start()
+                orc.expired = expired
             rec = CRecorder(p) if record else None
             if rec:
                 rec.__enter__()
@@ -214,6 +236,7 @@ def run(ctx, runs, with_oracle, record):
                     rec.__exit__(None, None, None)
                 if patcher:
                     patcher.stop()
+                    patcher2.stop()
             fails += orc.fails
             results.append((name, conf, seed, actions, rec))
         if len(fails) > 2:
